@@ -149,6 +149,8 @@ func (in *Interp) runPath(ex *Explorer, fn *ssa.Function, it workItem, cfg *RunC
 	in.epoch = 1
 	in.steps = 0
 	in.lockDepth = 0
+	in.goq = nil
+	in.inGo = 0
 	in.tf.Reset()
 	in.ptrTokens = nil
 	recording := false
@@ -188,6 +190,8 @@ func (in *Interp) runPath(ex *Explorer, fn *ssa.Function, it workItem, cfg *RunC
 		vt := fn.Signature.Params().At(0).Type()
 		v := in.newCell(in.zero(deref(vt)))
 		in.call(nil, nil, fn, []Value{v})
+		// goroutines nobody waited for still run
+		in.runPendingGo(nil)
 	}()
 	if tpanic != nil && abort == nil && crash == nil {
 		// unrecovered panic of the program under test: a violation of nopanic
